@@ -102,6 +102,10 @@ def ensure_facts(repo=REPO, verbose=True):
     key = repo_key(repo)
     final = os.path.join(CACHE, "facts", key)
     if os.path.isfile(os.path.join(final, "OK")):
+        try:
+            os.utime(final, None)   # keep hot entries away from the pruning below
+        except OSError:
+            pass
         return final, True
     with open(os.path.join(CACHE, "lock"), "w") as lk:
         fcntl.flock(lk, fcntl.LOCK_EX)
@@ -120,7 +124,7 @@ def ensure_facts(repo=REPO, verbose=True):
         # keep the cache small: only the 6 most recent fact sets
         allf = sorted((os.path.getmtime(os.path.join(CACHE, "facts", d)), d)
                       for d in os.listdir(os.path.join(CACHE, "facts")) if not d.endswith(".tmp"))
-        for _, d in allf[:-6]:
+        for _, d in allf[:-10]:
             shutil.rmtree(os.path.join(CACHE, "facts", d), ignore_errors=True)
         if verbose:
             print("[facts] exported %s in %.1fs" % (key, time.time() - t0), file=sys.stderr)
